@@ -81,6 +81,95 @@ theorem get?_evict_sub (facs : List (String × Destr)) (c : Cache V) (n nm : Str
     (h : (evict facs c n).get? nm sk = some v) : c.get? nm sk = some v :=
   (get?_evict_some facs c n nm sk v h).1
 
+theorem get?_patchOne (P : Params V) (dx dy : Int) (c : Cache V) (b nm : String) (sk : SubKey) :
+    (patchOne P dx dy c b).get? nm sk =
+      if b = nm ∧ sk = none then (c.get? nm none).map (fun v => P.patch nm v dx dy) else c.get? nm sk := by
+  unfold patchOne
+  cases hb : c.get? b none with
+  | none =>
+    by_cases e : b = nm ∧ sk = none
+    · obtain ⟨e1, e2⟩ := e; subst e1; subst e2; simp [hb]
+    · simp [e]
+  | some v0 =>
+    simp only
+    rw [get?_store]
+    by_cases e : b = nm ∧ none = sk
+    · obtain ⟨e1, e2⟩ := e; subst e1; subst e2; simp [hb]
+    · have e' : ¬ (b = nm ∧ sk = none) := fun h => e ⟨h.1, h.2.symm⟩
+      simp [e, e']
+
+/-- what `Contour.move` leaves in the cache: the two bounds entries under `None`, patched; of the
+rest only what no registered factory has `Contour.PointsChanged` destroy -/
+theorem get?_moveCache (P : Params V) (facs : List (String × Destr)) (c : Cache V) (dx dy : Int) (nm : String)
+    (sk : SubKey) (v : V) (h : (moveCache P facs c dx dy).get? nm sk = some v) :
+    (nm ∈ boundsNames ∧ sk = none ∧ ∃ v0, c.get? nm none = some v0 ∧ v = P.patch nm v0 dx dy) ∨
+    (c.get? nm sk = some v ∧ (nm ∈ boundsNames → sk ≠ none) ∧
+      (nm ∉ boundsNames → ∀ d, (nm, d) ∈ facs → d.hit "Contour.PointsChanged" = false)) := by
+  unfold moveCache at h
+  -- the eviction loop only removes
+  have hev : ∀ (fs : List (String × Destr)) (c1 : Cache V),
+      (fs.foldl (evictUnless boundsNames "Contour.PointsChanged") c1).get? nm sk = some v →
+      c1.get? nm sk = some v ∧ (nm ∉ boundsNames → ∀ d, (nm, d) ∈ fs → d.hit "Contour.PointsChanged" = false) := by
+    intro fs
+    induction fs with
+    | nil => intro c1 h1; exact ⟨h1, by simp⟩
+    | cons p r ih =>
+      intro c1 h1
+      simp only [List.foldl_cons] at h1
+      obtain ⟨h2, h3⟩ := ih _ h1
+      unfold evictUnless at h2
+      by_cases hp : (!boundsNames.contains p.1 && p.2.hit "Contour.PointsChanged") = true
+      · simp only [hp, if_true] at h2
+        rw [get?_destroyName] at h2
+        by_cases e : p.1 = nm
+        · simp [e] at h2
+        · simp only [e, if_false] at h2
+          refine ⟨h2, fun hnb d hd => ?_⟩
+          simp only [List.mem_cons] at hd
+          rcases hd with hd | hd
+          · exact absurd (by rw [← hd]) e
+          · exact h3 hnb d hd
+      · simp only [hp] at h2
+        refine ⟨h2, fun hnb d hd => ?_⟩
+        simp only [List.mem_cons] at hd
+        rcases hd with hd | hd
+        · subst hd
+          simp only [Bool.and_eq_true, Bool.not_eq_true', not_and, Bool.not_eq_true] at hp
+          apply hp
+          simpa using hnb
+        · exact h3 hnb d hd
+  obtain ⟨h1, h2⟩ := hev _ _ h
+  simp only [boundsNames, List.foldl_cons, List.foldl_nil] at h1
+  have hne : ¬ ("defcon.contour.bounds" = "defcon.contour.controlPointBounds") := by decide
+  by_cases e2 : "defcon.contour.controlPointBounds" = nm ∧ sk = none
+  · obtain ⟨e2a, e2b⟩ := e2
+    subst e2a; subst e2b
+    rw [get?_patchOne, if_pos ⟨rfl, rfl⟩, get?_patchOne, if_neg (fun hh => hne hh.1)] at h1
+    cases hc : c.get? "defcon.contour.controlPointBounds" none with
+    | none => rw [hc] at h1; cases h1
+    | some v0 =>
+      rw [hc] at h1
+      simp only [Option.map_some, Option.some.injEq] at h1
+      exact Or.inl ⟨by simp [boundsNames], rfl, v0, rfl, h1.symm⟩
+  · rw [get?_patchOne, if_neg e2] at h1
+    by_cases e1 : "defcon.contour.bounds" = nm ∧ sk = none
+    · obtain ⟨e1a, e1b⟩ := e1
+      subst e1a; subst e1b
+      rw [get?_patchOne, if_pos ⟨rfl, rfl⟩] at h1
+      cases hc : c.get? "defcon.contour.bounds" none with
+      | none => rw [hc] at h1; cases h1
+      | some v0 =>
+        rw [hc] at h1
+        simp only [Option.map_some, Option.some.injEq] at h1
+        exact Or.inl ⟨by simp [boundsNames], rfl, v0, rfl, h1.symm⟩
+    · rw [get?_patchOne, if_neg e1] at h1
+      refine Or.inr ⟨h1, ?_, h2⟩
+      intro hb hsk
+      simp only [boundsNames, List.mem_cons, List.mem_nil_iff, or_false] at hb
+      rcases hb with hb | hb
+      · exact e1 ⟨hb.symm, hsk⟩
+      · exact e2 ⟨hb.symm, hsk⟩
+
 end Cache
 
 /-! ### evictions touch nothing but the caches -/
